@@ -532,8 +532,8 @@ impl Matcher for KittyKeyboardMatcher {
 
     fn decode(&self, data: &[u8]) -> Option<Self::Item> {
         let data = &data[2..data.len() - 1]; // skip CSI and `u`
-        if data[0] == b'?' {
-            let level = number_decode(&data[1..data.len()])?;
+        if let Some(level) = data.strip_prefix(b"?") {
+            let level = number_decode(level)?;
             return Some(TerminalEvent::KeyboardLevel(level));
         }
 
